@@ -311,10 +311,10 @@ def check_lines(rep, drv, text, what="text"):
     for lines, exp in impl.block_cases(text):
         r2 = drv.ask(["parseblock", [core.Q(ln) for ln in lines], [[core.Q(n_), e_] for n_, e_ in exp]])
         if r2["statements"] != len(exp):
-            rep.count("headed_blocks_outside_the_line_model")     # a line broken behind an operator outside parentheses
+            rep.count("headed_blocks_outside_the_line_model")     # a layout the line model does not know
             continue
         if r2["verdict"] != "agree":
-            rep.violation(f"the block mirror (Line.parse_body: line feeds inside parentheses join, comment and blank lines skipped) and Lark disagree on a headed "
+            rep.violation(f"the block mirror (Line.parse_body: line feeds inside parentheses and behind operators join, comment and blank lines skipped) and Lark disagree on a headed "
                           f"block of the {what}: {r2['verdict']}  [{' / '.join(lines)[:100]}]",
                           {"kind": "correspondence", "relation": "Line.parse_body vs Lark (headed expressions block)", "text": text,
                            "lines": lines, "failing_input": None}, failing_input_found=False)
